@@ -47,11 +47,11 @@ def check_exits(ctx, prop):
             if not isinstance(n, ast.Return):
                 continue
             ctx.count(1, fn.where(n))
-            v = n.value if n.value is not None else ast.Constant(value=None)
-            if isinstance(v, ast.Name):
+            for v in normal.exit_arms(n.value if n.value is not None else ast.Constant(value=None)):
+              if isinstance(v, ast.Name):
                 continue            # a name: what it holds is judged where it is assigned
-            d = normal.stmt_blind(ast.Expr(value=v), loc)[0]
-            if d not in allowed:
+              d = normal.stmt_blind(ast.Expr(value=v), loc)[0]
+              if d not in allowed:
                 ctx.fail(fn, n, '%s has a new exit `return %s`: no path of the confirmed function produces its result this way, so none of the obligations on the other paths covers it (a shortcut in front of the real computation must be shown to agree with it for every input, which no rule here can do)' % (fn.qual, U(v)[:100]))
         names = {n.value.id for n in normal._own_nodes(fn.node) if isinstance(n, ast.Return) and isinstance(n.value, ast.Name)}
         for n in normal._own_nodes(fn.node):
